@@ -257,17 +257,35 @@ pub const KEY_NAMES: [&str; NKEYS] = [
     "RAlt2",
 ];
 
+/// Identity of a key as the crate numbers it (works for keys this list does not know).
 #[inline]
-pub fn kidx(k: KeyCode) -> usize {
+pub fn kid(k: KeyCode) -> usize {
     k as u8 as usize
 }
 
-pub fn kname(k: KeyCode) -> &'static str {
+static IDX: std::sync::OnceLock<[u8; 256]> = std::sync::OnceLock::new();
+
+/// Position of a key in ALL_KEYS, or NKEYS for a key this list does not know
+/// (a variant added to the crate later). Used for coverage cells and names only,
+/// never for identity.
+#[inline]
+pub fn kidx(k: KeyCode) -> usize {
+    let t = IDX.get_or_init(|| {
+        let mut t = [NKEYS as u8; 256];
+        for (i, k) in ALL_KEYS.iter().enumerate() {
+            t[*k as u8 as usize] = i as u8;
+        }
+        t
+    });
+    t[k as u8 as usize] as usize
+}
+
+pub fn kname(k: KeyCode) -> String {
     let i = kidx(k);
     if i < NKEYS {
-        KEY_NAMES[i]
+        KEY_NAMES[i].to_string()
     } else {
-        "?newkey"
+        format!("{:?}", k)
     }
 }
 
@@ -308,7 +326,7 @@ pub fn ev(k: KeyCode, s: KeyState) -> KeyEvent {
 pub fn selfcheck() -> Result<(), String> {
     for (i, k) in ALL_KEYS.iter().enumerate() {
         if kidx(*k) != i {
-            return Err(format!("ALL_KEYS[{}] = {:?} has discriminant {}", i, k, kidx(*k)));
+            return Err(format!("ALL_KEYS[{}] = {:?} resolves to index {}", i, k, kidx(*k)));
         }
         if format!("{:?}", k) != KEY_NAMES[i] {
             return Err(format!("KEY_NAMES[{}] = {} but Debug says {:?}", i, KEY_NAMES[i], k));
